@@ -13,16 +13,22 @@ From Verif Require Import Base.Prelude Base.StrOrd Base.Graph Model.Pipe Model.C
    flags of p), every history of calls (with / without full_output, supplying root arguments or intermediates,
    surplus or missing keywords) and update_defaults / update_bound / replace mutations: each call that succeeds
    without caching returns an equal value with caching enabled.
-   Side conditions: every pipeline of the history is well-formed (accepted by construction) and its root_args cover
-   the names its outputs read (`roots_okb`, decidable; evaluated on every generated correspondence case). *)
+   Only side condition: every pipeline of the history is well-formed (`hist_wfb`: accepted by construction-time
+   validation).  That Pipeline.root_args (the model of _compute_arg_mapping) exists, consists of non-outputs and
+   covers every name the output reads is PROVED from well-formedness (C09_roots_ok_of_wf below). *)
 Theorem C09_cache_transparent :
   forall (body : str -> alist -> result str) (pick : str -> str -> str) (C : Type) (P : policy C) (good : C -> Prop),
     lawful P good ->
     forall (p : pipeline) (h : list step) (c0 : C),
-      hist_goodb p h = true -> empty_cache P good c0 ->
+      hist_wfb p h = true -> empty_cache P good c0 ->
       Forall2 step_transparent (exec_hist body pick P false false p c0 h) (exec_hist body pick P false true p c0 h).
-Proof. exact @cache_transparent. Qed.
+Proof. exact @cache_transparent_wf. Qed.
 Print Assumptions C09_cache_transparent.
+
+(* root_args of a well-formed pipeline: defined for every output, only non-outputs, covers what the output reads *)
+Theorem C09_roots_ok_of_wf : forall p, wf_pipeline p -> roots_okb p = true.
+Proof. exact RootArgsFacts.roots_okb_of_wf. Qed.
+Print Assumptions C09_roots_ok_of_wf.
 
 (* the invariant behind it (DESIGN: cache_inv): from ANY two caches whose resident entries are raw results of their
    functions for the key's root values, not only from empty ones *)
@@ -30,9 +36,12 @@ Theorem C09_cache_inv_history :
   forall (body : str -> alist -> result str) (pick : str -> str -> str) (C : Type) (P : policy C) (good : C -> Prop),
     lawful P good ->
     forall (h : list step) (p : pipeline) (cu cc : C),
-      hist_good p h -> cache_inv body pick P good p cu -> cache_inv body pick P good p cc ->
+      (forall q, In q (hist_pipelines p h) -> wf_pipeline q) ->
+      cache_inv body pick P good p cu -> cache_inv body pick P good p cc ->
       Forall2 step_transparent (exec_hist body pick P false false p cu h) (exec_hist body pick P false true p cc h).
-Proof. exact @cache_transparent_inv. Qed.
+Proof.
+  intros body pick C P good LAW h p cu cc Hw. apply (cache_transparent_inv body pick P good LAW). now apply hist_wf_good.
+Qed.
 Print Assumptions C09_cache_inv_history.
 
 (* the two container models of CacheSem.v are lawful, hence the instances *)
@@ -46,41 +55,41 @@ Print Assumptions C09_lru_lawful.
 
 Theorem C09_cache_transparent_simple :
   forall body pick (p : pipeline) (h : list step),
-    hist_goodb p h = true ->
+    hist_wfb p h = true ->
     Forall2 step_transparent (exec_hist body pick simple_policy false false p [] h)
                              (exec_hist body pick simple_policy false true p [] h).
-Proof. intros. exact (cache_transparent body pick simple_policy _ simple_lawful p h [] H simple_empty). Qed.
+Proof. intros. exact (cache_transparent_wf body pick simple_policy _ simple_lawful p h [] H simple_empty). Qed.
 Print Assumptions C09_cache_transparent_simple.
 
 Theorem C09_cache_transparent_lru :
   forall body pick (max_size : nat) (p : pipeline) (h : list step),
-    hist_goodb p h = true ->
+    hist_wfb p h = true ->
     Forall2 step_transparent (exec_hist body pick lru_policy false false p (lru_empty max_size) h)
                              (exec_hist body pick lru_policy false true p (lru_empty max_size) h).
-Proof. intros. exact (cache_transparent body pick lru_policy _ lru_lawful p h _ H (lru_empty_ok max_size)). Qed.
+Proof. intros. exact (cache_transparent_wf body pick lru_policy _ lru_lawful p h _ H (lru_empty_ok max_size)). Qed.
 Print Assumptions C09_cache_transparent_lru.
 
 (* one call, from arbitrary caches satisfying the invariant: the cached twin also succeeds, with an equal outcome *)
 Theorem C09_call_transparent :
   forall body pick (C : Type) (P : policy C) (good : C -> Prop), lawful P good ->
-  forall p, wf_pipeline p -> roots_okb p = true ->
+  forall p, wf_pipeline p ->
   forall kw full cu cc o out_u lgu cu',
     cache_inv body pick P good p cu -> cache_inv body pick P good p cc ->
     crun body pick P false false p cu o kw full = (Ok out_u, lgu, cu') ->
     exists out_c lgc cc', crun body pick P false true p cc o kw full = (Ok out_c, lgc, cc') /\ outcome_eq out_u out_c.
 Proof.
-  intros body pick C P good LAW p WF ROOTS. destruct (wf_topo p WF) as [ls LS].
-  exact (call_transparent body pick P good LAW p WF ROOTS ls LS).
+  intros body pick C P good LAW p WF. destruct (wf_topo p WF) as [ls LS].
+  exact (call_transparent body pick P good LAW p WF (RootArgsFacts.roots_okb_of_wf p WF) ls LS).
 Qed.
 Print Assumptions C09_call_transparent.
 
 (* the uncached twin of this model is exactly Pipe.run, the model of C02 *)
 Theorem C09_uncached_twin_is_pipe_run :
-  forall body pick (C : Type) (P : policy C) (p : pipeline), roots_okb p = true ->
+  forall body pick (C : Type) (P : policy C) (p : pipeline), wf_pipeline p ->
   forall kw full (c : C) o,
     crun body pick P false false p c o kw full
     = (fst (Pipe.run body pick p o kw full), snd (Pipe.run body pick p o kw full), c).
-Proof. exact @uncached_twin_is_pipe_run. Qed.
+Proof. intros body pick C P p WF. exact (uncached_twin_is_pipe_run body pick P p (RootArgsFacts.roots_okb_of_wf p WF)). Qed.
 Print Assumptions C09_uncached_twin_is_pipe_run.
 
 (* ---------- no re-execution ---------- *)
@@ -146,11 +155,11 @@ Definition p_key : pipeline :=
 Definition h_key : list step := [call_c [(s "x", s "1")]; call_c [(s "x", s "2")]].
 
 Definition legacy_refuted (p : pipeline) (h : list step) : Prop :=
-  hist_goodb p h = true
+  hist_wfb p h = true
   /\ ~ Forall2 step_transparent (exec_hist Sym.body Sym.pick simple_policy true false p [] h)
                                 (exec_hist Sym.body Sym.pick simple_policy true true p [] h).
 
-Lemma refute p h : hist_goodb p h = true ->
+Lemma refute p h : hist_wfb p h = true ->
   all_transparentb (exec_hist Sym.body Sym.pick simple_policy true false p [] h)
                    (exec_hist Sym.body Sym.pick simple_policy true true p [] h) = false -> legacy_refuted p h.
 Proof. intros Hg Hb. split; [exact Hg|]. intros H. apply all_transparentb_complete in H. congruence. Qed.
@@ -175,8 +184,8 @@ Print Assumptions C09_cache_transparent_refuted_bound_in_key.
 (* the witnesses satisfy the side condition of C09_cache_transparent, and on the repaired model they are transparent
    while the cache is really used: the repeated call of h_hit executes nothing *)
 Example C09_side_conditions_hold :
-  hist_goodb p_cut h_cut = true /\ hist_goodb p_cut h_replace = true /\ hist_goodb p_cut h_bound = true
-  /\ hist_goodb p_key h_key = true.
+  hist_wfb p_cut h_cut = true /\ hist_wfb p_cut h_replace = true /\ hist_wfb p_cut h_bound = true
+  /\ hist_wfb p_key h_key = true.
 Proof. vm_compute. auto. Qed.
 
 Definition h_hit : list step := [call_c [(s "a", s "1")]; call_c [(s "a", s "1")]].
